@@ -29,7 +29,7 @@ RULE = ("one run = (certificate gathered by the real tools from a simulated devi
         "invalid key, compressed keys, a device authorised for another path set with the matching keys "
         "file; certificate side: target removed; the verify command asked again 0..2 times in the same "
         "process under another / the same root; root: other key / broken "
-        "self-signature / expired (SGX, virtual clock); non-trivial = the verify command ran; distinct = "
+        "self-signature / expired / last second of validity (SGX, virtual clock, host time zone drawn); non-trivial = the verify command ran; distinct = "
         "(platform, deviation, operator-side alteration, root state, outcome)")
 TIERS = {"quick": {"runs": 8000, "wall": 240}, "thorough": {"runs": 150000, "wall": 3000}}
 MUTANT_RUNS = 1200
@@ -52,7 +52,7 @@ DEVIATIONS = ["none", "ui-header", "signer-header", "one-short", "one-long", "ot
 KEYS_ALT = ["none", "none", "none", "replace-one", "rename-path", "rename-keeping-order",
             "drop-btc", "empty", "not-object", "invalid-key", "compressed", "extra-key",
             "other-wallet-paths", "other-wallet-paths"]
-ROOT_ALT = ["none", "none", "none", "other", "broken-self-signature", "expired"]
+ROOT_ALT = ["none", "none", "none", "other", "broken-self-signature", "expired", "last-second"]
 
 
 def run_one(ch, cfg):
@@ -183,7 +183,7 @@ def run_one(ch, cfg):
             root_hex = Key(scalar(b"otherroot" + ch.bytes(4, "root"))).pub65.hex()
         elif root_alt == "broken-self-signature":
             root_hex = ch.pick(["zz", "", "04" + "11" * 64, root_hex[:-2]], "root.invalid")
-        elif root_alt == "expired":
+        elif root_alt in ("expired", "last-second"):
             root_alt = "none"
         st, out = A.verify(w, root_hex)
         ref = REF.ledger(doc, keys, root_hex)
@@ -199,6 +199,11 @@ def run_one(ch, cfg):
                                         stranger, w.clock.now - 86400 * 400, w.clock.now + 86400 * 4000)
         elif root_alt == "expired":
             w.clock.now = w.clock.now + pki.windows["root"][1] + ch.pick([1, 86400], "root.after")
+        elif root_alt == "last-second":
+            # the PCK certificate is in the last second of its validity (the chain is still valid)
+            w.clock.now = pki.now + pki.windows["leaf"][1] - 1
+        # validity periods are instants: the verifier host's local time zone must not matter
+        w.tz_offset = ch.pick([0, 0, -5 * 3600, 9 * 3600, 13 * 3600, -8 * 3600, 19800], "host-time-zone")
         w.fs.put(A.SGX_ROOT, sgxpki.pem(root_der).encode())
         st, out = A.sgx_verify(w)
         ref = REF.sgx(doc, keys, root_der, w.clock.now)
